@@ -404,8 +404,7 @@ func execC12Wire(c c12Case, pf *frugal.FProtocolFactory, limit, target int, what
 		srv := frugal.NewFNatsServerBuilder(sconn, newSvcProcessor(h), pf, []string{subj}).Build()
 		served := make(chan error, 1)
 		go func() { served <- srv.Serve() }()
-		time.Sleep(2 * time.Millisecond)
-		sconn.Flush()
+		awaitSubscribed(sconn)
 		cleanup = append(cleanup, func() { srv.Stop(); <-served })
 		tr = frugal.NewFNatsTransport(cconn, subj, "")
 		if err := tr.Open(); err != nil {
